@@ -18,9 +18,9 @@ INVARIANTS = ["StoreMatchesLru", "SizeBound", "NeverShare", "ReturnedOwn", "Rais
               "NoTtlBoundary", "OneRecomputation", "HitRunsNothing", "EvictsLeastRecent", "OtherFunctionUntouched"]
 # (group, extra TLC environment): the big spelling group is split so that no TLC output has to be held at once
 PARTS = {
-    "quick": [("misc", {}), ("inst", {}), ("lru", {}), ("spell", {})],        # misc = lazy + overlap + shared + falsy
+    "quick": [("misc", {}), ("inst", {}), ("lru", {}), ("spell", {})],        # misc = lazy + overlap + shared + falsy + extras
     "thorough": [("spell", {"FORM": "fn"}), ("spell", {"FORM": "meth"}), ("lru", {}), ("inst", {}), ("lazy", {}), ("overlap", {}),
-                 ("shared", {}), ("falsy", {})],
+                 ("shared", {}), ("falsy", {}), ("extras", {})],
 }
 DECO = {"lru": "alru_cache", "inst": "acached_per_instance", "lazy": "alazy_constant"}
 CLAUSE = {"hit": "hit", "new": "miss", "raise": "raise", "evicted": "lru", "dropped": "instance", "drop": "instance",
@@ -36,6 +36,8 @@ def trigger(cfg):
         t = "acached_per_instance"
     if cfg.get("nf", 1) == 2:
         t += "/one-decorator-two-functions"
+    if cfg.get("sig", "std") != "std":
+        t += "/signature:" + {"kw": "(a,b=0,*,c=0,**extra)", "var": "(a,b=0,*rest,**extra)", "varkwo": "(a,b=0,*rest,c=0,**extra)"}[cfg["sig"]]
     if cfg.get("ret", "tuple") != "tuple":
         t += "/returns-" + cfg["ret"]
     return t
@@ -48,13 +50,20 @@ def classify(case, m):
     j = m["diff"][0]
     o, g = case["h"][j], m["got"][j]
     for q, (want, have) in enumerate(zip(o["res"], g["res"])):
-        if list(want) != ["any"] and list(want) != list(have):
+        want, have = list(want), list(have)
+        if want[:1] == ["fresh"]:
+            ok = (len(have) == len(want) - 2 and have[0] == want[1] and have[1:-1] == want[2:-2] and want[-2] <= have[-1] <= want[-1])
+            twin = [list(x) for x in g["res"]].count(have) > 1
+            if ok and not twin:
+                continue
+            return "C13.ownresult"            # overlapping misses: each call returns the result of its own body run
+        if want != ["any"] and want != have:
             tag = o["tag"][q]
             if have and have[0] == "val" and tag != "hit" and o["calls"]:
                 s = o["calls"][q]
-                keep = [0, 1, 2, 4] if case["cfg"]["keyfn"] else [0, 1, 2, 3, 4]     # key_fn ignores b
-                own = [s.get("g", 1), s["i"], s["a"], s["b"], s["c"]]
-                if len(have) >= 6 and [have[1 + x] for x in keep] != [own[x] for x in keep]:
+                keep = [0, 1, 2, 4, 5, 6] if case["cfg"]["keyfn"] else [0, 1, 2, 3, 4, 5, 6]     # key_fn ignores b
+                own = [s.get("g", 1), s["i"], s["a"], s["b"], s["c"], s.get("p", 0), s.get("x", 0)]
+                if len(have) >= 8 and [have[1 + x] for x in keep] != [own[x] for x in keep]:
                     return "C13.differ"       # served a value computed from other arguments
             return "C13." + CLAUSE.get(tag, tag)
     return "C13." + CLAUSE.get(o["tag"][0], o["tag"][0])        # only the number of body runs differs
@@ -158,6 +167,7 @@ def main():
             "model_invariants": INVARIANTS, "model_ok": not alarms, "mismatching_histories": nmis,
             "evaluations": total, "distinct_nontrivial": nontriv,
             "functions_per_decorator_object": [1, 2], "result_kinds": ["tuple", "none", "zero", "str", "empty"],
+            "signatures": ["(a,b=0,*,c=0)", "(a,b=0,*,c=0,**extra)", "(a,b=0,*rest,**extra)", "(a,b=0,*rest,c=0,**extra)"],
             "rule": "every call history to the group's depth over the group's call alphabet (all spellings x 2 values per parameter: "
                     "depth %s; LRU/instance/ttl histories over few keys: depth %s); non-trivial = contains a hit and a miss/eviction/drop/dirty/expiry/raise"
                     % (("3 (default key; 2 with key_fn)", "3-7") if tier == "thorough" else ("2", "2-6")),
@@ -166,7 +176,7 @@ def main():
         rc = verdict.finish(max_print=8)
         common.write_evidence(PID, "model_checking", cov, time.time() - t0, violations=len(verdict.violations),
                               assumptions=["histories are bounded in depth and in the call alphabet of each group (small-scope)",
-                                           "overlapping calls: prescribed only while no eviction is involved; two overlapping misses on one key are left open",
+                                           "overlapping calls: prescribed only while no eviction is involved; two overlapping misses on one key each return their own body run's fresh result, which of the two values stays stored is left open",
                                            "ttl: the clock is asynq.tools.utime replaced by a scripted logical clock; elapsed time never equals ttl exactly (boundary not prescribed)",
                                            "'vanish with their instance' is observed through a new instance at the recycled address and, when exposed, the size of the decorator's per-instance table",
                                            "TLC and the replay harness are trusted"], tier_=tier)
